@@ -12,7 +12,8 @@
  code side  : harness/cmd/logdrv builds real fastlog.Line values through a Logger: (A) every vector on the real
               appender, ToString() and Write(); specification text == standard library text (oracle agreement);
               (B) sweeps against the standard library; (C) every TLC behaviour replayed with the cursor read after every
-              step; (D) String()/FastLog of valid views and table entries under recover.
+              step; (D) String()/FastLog of valid views and table entries under recover; (E) lines built concurrently by
+              several goroutines compared with their reference text.
 """
 import os
 
@@ -113,10 +114,11 @@ def run(ctx):
         "behaviours_model_predicts_panic": s["behaviours_model_predicts_panic"],
         "behaviours_real_panic": s["behaviours_real_panic"],
         "behaviours_mechanism_conformant": s["behaviours_mechanism_conformant"],
+        "lines_built_concurrently": s["concurrent_lines"],
         "views_rendered": s["views_rendered"],
         "views_by_type": s["views_by_type"],
         "failure_counts": s["failure_counts"],
-        "evaluations": nvec + sweeps + s["behaviours"] + s["views_rendered"],
+        "evaluations": nvec + sweeps + s["behaviours"] + s["views_rendered"] + s["concurrent_lines"],
         "distinct_nontrivial": s["distinct_cases"],
         "rule": "one evaluation = one TLC vector rendered by the real appender(s), one swept value compared with the standard "
                 "library, one TLC behaviour replayed on a real Line, or one view rendered; distinct_nontrivial = distinct "
